@@ -117,6 +117,7 @@ func (fs *Filespace) ReadDir(srcPath string) (nodes []os.FileInfo, err error) {
 
 // IsExist return true if node exist
 func (fs *Filespace) IsExist(srcPath string) bool {
+	srcPath = varutil.CleanPath(srcPath)
 	if srcNode, err := getNodeByPath(fs.root, srcPath); err != nil || srcNode == nil {
 		return false
 	}
